@@ -101,6 +101,8 @@ impl Assets {
 
 
 fn main() {
+    // Verification hooks are guarded by `--cfg routinator_verif`.
+    println!("cargo::rustc-check-cfg=cfg(routinator_verif)");
     if env::var_os("CARGO_FEATURE_UI").is_none() {
         return
     }
